@@ -23,6 +23,32 @@ VARIANTS = [
     dict(name="twin: threshold written as an early continue", kind="twin", file=HG,
          old="            if da > chi:\n                # large multibond shared by e_nodes -> should compress\n                for node in e_nodes:",
          new="            if da <= chi:\n                continue\n            if True:\n                # large multibond shared by e_nodes -> should compress\n                for node in e_nodes:"),
+    dict(name="F14-reverted: greedy-span unpacks every step of the greedy sub-path as a pair", kind="break",
+         file="cotengra/pathfinders/path_compressed_greedy.py",
+         old="""            for p in o_ssa_path:
+                if len(p) == 1:
+                    # single term simplification: takes up an ssa id but
+                    # still refers to the same node
+                    o_nodes.append(o_nodes[p[0]])
+                    continue
+                pi, pj = p
+""", new="""            for pi, pj in o_ssa_path:
+""", expect=("C20-STEPS", "get_ssa_path")),
+    dict(name="twin: greedy sub-path requested without simplification and unpacked as pairs", kind="twin",
+         file="cotengra/pathfinders/path_compressed_greedy.py",
+         old="""            o_ssa_path = ssa_greedy_optimize(o_inputs, output, size_dict)
+            seq = []
+            for p in o_ssa_path:
+                if len(p) == 1:
+                    # single term simplification: takes up an ssa id but
+                    # still refers to the same node
+                    o_nodes.append(o_nodes[p[0]])
+                    continue
+                pi, pj = p
+""", new="""            o_ssa_path = ssa_greedy_optimize(o_inputs, output, size_dict, simplify=False)
+            seq = []
+            for pi, pj in o_ssa_path:
+"""),
     dict(name="twin: conditional minimum", kind="twin", file=HG,
          old="                self.size_dict[e_keep] = min(new_size, chi)",
          new="                self.size_dict[e_keep] = new_size if new_size < chi else chi"),
